@@ -63,4 +63,27 @@ theorem leg_rm_imm8_formOkG (ctx : Spec.X86.Ctx) (rule : Rule) (p : Parsed) (mb 
   exact ⟨⟨hw, by simpa using c66, by simpa using cF3, by simpa using cF2, cF0, c9B, by omega, by simpa using ccont⟩,
     by rcases hmk with h | h <;> omega⟩
 
+/-- legacy form with the register in the low 3 bits of the opcode byte (`50+r`), no ModRM -/
+theorem leg_opreg_formOk (ctx : Spec.X86.Ctx) (rule : Rule) (p : Parsed) (bytes : List (BitVec 8)) (pp : Nat)
+    (k : RegKind) (f0 : FormOp) (id : Nat)
+    (hmode : ((if ctx.mode64 then rule.modes &&& 2 else rule.modes &&& 1) != 0) = true)
+    (hs : rule.space = 0) (hpp8 : rule.pp &&& 8 = 0)
+    (h66 : (rule.pp &&& 1 != 0 || rule.osz == 16) = (pp == 1)) (hF3 : (rule.pp &&& 2 != 0) = (pp == 2)) (hF2 : (rule.pp &&& 4 != 0) = (pp == 3))
+    (hpplt : pp < 4) (hri : rule.ri = true) (ha67 : rule.a67 = false)
+    (hk : PlainKind k) (hf0 : f0.role = .opc)
+    (hal : alignOps rule.oszEff rule.ops [.reg k id] = some [(f0, some (.reg k id))])
+    (hparse : parse ctx.mode64 rule bytes = .ok p)
+    (hvk : p.vexKind = 0) (hpfx : p.prefixes = ppBytes pp) (hmodrm : p.modrm = Option.none) (hop : (p.opcode &&& 0xF8#8).toNat = rule.opcode)
+    (hw : wWant rule = 2 ∨ p.W = (wWant rule == 1))
+    (hreg : regNum false p.B (bits p.opcode 0 3) = id) :
+    formOk ctx rule [.reg k id] {} bytes = true := by
+  obtain ⟨c66, cF3, cF2, cF0, c9B, c67, cseg, ccont⟩ := count_ppBytes pp hpplt
+  have hleg : isLegacySpace rule = true := by simp [isLegacySpace, hs]
+  simp only [formOk, conds, hal, hparse, hmode]
+  simp only [allOk_cons, allOk_append, decorConds, headConds, prefixConds, modrmConds, operandConds, opConds, tailConds, hf0,
+    regConds_plain _ _ _ _ _ hk, allOk_nil, memOperandOf, implMemOf, usesVvvv, memDestOf,
+    hasBcst, hleg, hri, hmodrm, hpfx, hvk, c66, cF3, cF2, cF0, c9B, c67, cseg, ccont, h66, hF3, hF2, List.foldl, List.find?]
+  simp [hop, hreg, hs, hpp8, ha67, allOk]
+  exact ⟨hw, by simpa using c66, by simpa using cF3, by simpa using cF2, cF0, c9B, by omega, by simpa using ccont⟩
+
 end AsmjitVerif.Lemmas.X86Parse
